@@ -5,7 +5,7 @@ ID=$1; V=$2; NAME=$3; W=/tmp/wt3_$ID; SRC=/tmp/wt3_$ID.out/$V; OUT=/verif/seeded
 set -u
 cd $W || exit 2
 git checkout -q -- . ; git apply $SRC/patch.diff || { echo "patch does not apply"; exit 2; }
-PY=$(/venv/bin/python -m pytest -q -p no:cacheprovider --timeout=900 --continue-on-collection-errors 2>&1 | tail -1)
+PY=$(OMP_NUM_THREADS=2 MKL_NUM_THREADS=2 /venv/bin/python -m pytest -q -p no:cacheprovider --timeout=900 --continue-on-collection-errors 2>&1 | tail -1)
 PYTHONPATH=$W /venv/bin/python $SRC/demo.py > /tmp/demo_with_$NAME.txt 2>&1; RC1=$?
 git apply -R $SRC/patch.diff
 PYTHONPATH=$W /venv/bin/python $SRC/demo.py > /tmp/demo_without_$NAME.txt 2>&1; RC0=$?
